@@ -479,9 +479,13 @@ def run(prog, rep, tier):
                 if any(x[0] == "call" and x[2].endswith("::subsec_nanos") for x in pb_.origins(st_[2][3])):
                     comp = True
     rep.examined(R119, STD, sample={"from_timestamp_calls_with_negated_seconds": [(p_.split("::")[-1], l_, "raw fraction" if r_ else "derived") for p_, l_, r_ in neg_calls], "complement_1e9_minus_fraction_present": comp})
-    if not neg_calls:
-        raise CheckerError("systemtime_to_datetime: no pre-epoch conversion (negated seconds) recognised")
-    if any(r_ for _, _, r_ in neg_calls) or not comp:
+    manual = any(c.d.endswith("::from_timestamp") for b_ in bodies_ for c in b_.live_calls())
+    if not manual:
+        # the conversion is left to chrono's own From<SystemTime> (which handles times before the epoch); nothing to check
+        pass
+    elif not neg_calls:
+        raise CheckerError("systemtime_to_datetime: from_timestamp is used but no pre-epoch branch (negated seconds) recognised")
+    elif any(r_ for _, _, r_ in neg_calls) or not comp:
         rep.violation(R119, STD + "|pre-epoch", "systemtime_to_datetime: for a time before 1970 the seconds are negated but the sub-second part is passed on unchanged (no 1e9 - fraction); "
                       "an mtime of 1965-12-31T23:59:59.5Z becomes 1966-01-01T00:00:00.5Z... one second late, and every message of a year-less log is dated a year late")
 
